@@ -40,7 +40,36 @@ func (g *Gen) generate(id string) {
 		case b.Closure >= 0:
 			g.verifyClosure(b)
 		default:
-			g.verifyFunc(b.Target)
+			// a function with case contracts is proved case by case
+			var cases []*Block
+			for _, cb := range g.C.Blocks {
+				if cb.Kind == "func" && cb.Target == b.Target && cb.Case != "" && cb.Loop < 0 && cb.Closure < 0 {
+					cases = append(cases, cb)
+				}
+			}
+			if len(cases) == 0 {
+				g.verifyFunc(b.Target)
+				break
+			}
+			fd := g.P.Funcs[b.Target]
+			if fd == nil {
+				g.errorf("contract for %s: no such function", b.Target)
+				break
+			}
+			have := map[string]bool{}
+			for _, cb := range cases {
+				have[cb.Case] = true
+				if !done[cb.ID()] {
+					done[cb.ID()] = true
+					g.verifyCase(cb)
+				}
+			}
+			for _, l := range caseLabels(fd) {
+				if !have[l] {
+					ub := &Block{Kind: "func", Target: b.Target, Case: l, Loop: -1, Closure: -1, Flags: map[string]string{}, Props: b.Props}
+					g.verifyCaseX(ub, true)
+				}
+			}
 		}
 	}
 	// lemmas and table checks
